@@ -5,8 +5,9 @@ Every theorem quantifies over ALL step lists `ops` (= all interleavings of the c
 that own the handles; steps that Rust ownership forbids are no-ops). The ghost fields of `…Sys` (`sentVal`, `sent`,
 `got`, `unseen`, `waiting`) are history variables that the code state does not influence.
 
-As-is defect D39 (mpsc never reports disconnection) has a witness (`C34_mpsc_disconnect_counterexample`), a universal
-form (`C34_mpsc_never_closed`) and the strongest true remainder (`C34_mpsc_poll_spec_partial`). -/
+The mpsc theorems are about the code WITH fixes/D39.patch (sender counting; the last drop closes the channel and wakes the
+receiver): `C34_mpsc_poll_spec` is the full statement. The defect D39 of the code before the patch (mpsc never reports
+disconnection) is kept as the regression witness `C34_mpsc_disconnect_counterexample` on `MpscSys.runOld`. -/
 namespace DustVerif.Chan
 
 /-! ## one-shot -/
@@ -163,7 +164,7 @@ example : (OneSys.init.outs [.poll 7, .dropSender, .poll 8]) = [.polled .pending
   decide
 example : ((OneSys.init.run [.dropSender]).ch.pollCS 1).2 = .closed := by decide
 
-/-! ## mpsc -/
+/-! ## mpsc (code with fixes/D39.patch) -/
 
 /-- C34 mpsc, FIFO without loss or duplication: after ANY step list (any number of cloned senders, any
     interleaving), received ++ queued = sent; in particular the received sequence is a prefix of the sent sequence. -/
@@ -175,20 +176,63 @@ theorem C34_mpsc_fifo (ops : List MpscOp) :
   clear_value s
   exact ⟨h.conserve.symm, ⟨s.ch.data, h.conserve.symm⟩⟩
 
-/-- C34 mpsc, no lost wake-up for values: after ANY step list, if the receiver's last poll was `Pending` and its waker
-    has not been woken since, the waker is still registered and every sent value has been received. -/
+/-- C34 mpsc, bookkeeping: after ANY step list `sender_count` equals the number of live sender handles, the decrement
+    of a drop never underflows, and the channel is closed exactly when no sender handle exists. -/
+theorem C34_mpsc_count (ops : List MpscOp) :
+    let s := MpscSys.init.run ops
+    s.ch.senderCount = s.senders.length ∧ s.panicked = false ∧ (s.ch.isClosed = true ↔ s.senders = []) := by
+  intro s
+  have h : MpscInv s := MpscInv.run _ MpscInv.init ops
+  clear_value s
+  refine ⟨h.count, h.no_panic, ?_⟩
+  rw [h.closed_iff, h.count]
+  exact List.length_eq_zero_iff
+
+/-- C34 mpsc, disconnection is reported exactly when all senders are dropped and the queue is empty (FULL statement,
+    with fixes/D39.patch): after ANY step list `receive` answers the oldest queued value if there is one, `None`
+    (closed) iff the queue is empty and no sender handle exists, and `Pending` otherwise. -/
+theorem C34_mpsc_poll_spec (ops : List MpscOp) (w : Nat) :
+    let s := MpscSys.init.run ops
+    (s.ch.pollCS w).2 = mpscPollSpec s.ch.data s.senders := by
+  intro s
+  have h : MpscInv s := MpscInv.run _ MpscInv.init ops
+  clear_value s
+  cases hd : s.ch.data with
+  | cons v rest => simp [Mpsc.pollCS, mpscPollSpec, hd]
+  | nil =>
+    cases hl : s.senders with
+    | nil =>
+      have hz : s.ch.senderCount = 0 := by rw [h.count, hl]; rfl
+      have hc : s.ch.isClosed = true := h.closed_iff.mpr hz
+      simp [Mpsc.pollCS, mpscPollSpec, hd, hc]
+    | cons a as =>
+      have hz : ¬ s.ch.senderCount = 0 := by rw [h.count, hl]; simp
+      have hc : s.ch.isClosed = false := by
+        cases hb : s.ch.isClosed with
+        | false => rfl
+        | true => exact absurd (h.closed_iff.mp hb) hz
+      simp [Mpsc.pollCS, mpscPollSpec, hd, hc]
+
+/-- C34 mpsc, no lost wake-up (values AND disconnection): after ANY step list, if the receiver's last poll was `Pending`
+    and its waker has not been woken since, the waker is still registered, every sent value has been received and a
+    sender handle still exists. -/
 theorem C34_mpsc_no_lost_wakeup (ops : List MpscOp) (w : Nat) :
     let s := MpscSys.init.run ops
-    s.waiting = some w → s.ch.waker = some w ∧ s.ch.data = [] ∧ s.got = s.sent := by
+    s.waiting = some w → s.ch.waker = some w ∧ s.ch.data = [] ∧ s.got = s.sent ∧ s.senders ≠ [] := by
   intro s hw
   have h : MpscInv s := MpscInv.run _ MpscInv.init ops
   clear_value s
   have h4 := h.waiting_ok w hw
   have h3 := h.waker_ok w h4
-  refine ⟨h4, h3, ?_⟩
-  have := h.conserve
-  rw [h3] at this
-  simpa using this.symm
+  refine ⟨h4, h3.1, ?_, ?_⟩
+  · have := h.conserve
+    rw [h3.1] at this
+    simpa using this.symm
+  · intro hl
+    have hz : s.ch.senderCount = 0 := by rw [h.count, hl]; rfl
+    have := h.closed_iff.mpr hz
+    rw [h3.2] at this
+    cases this
 
 /-- C34 mpsc, every send wakes a registered receiver: in every reachable state a send through a live handle is
     accepted, appends at the back and calls `wake()` on the registered waker. -/
@@ -202,7 +246,11 @@ theorem C34_mpsc_send_wakes (ops : List MpscOp) (sid v : Nat) :
   intro s hi
   have h : MpscInv s := MpscInv.run _ MpscInv.init ops
   clear_value s
-  have hc := h.never_closed
+  have hpos : 0 < s.ch.senderCount := by rw [h.count]; exact hasId_length_pos _ _ hi
+  have hc : s.ch.isClosed = false := by
+    cases hb : s.ch.isClosed with
+    | false => rfl
+    | true => have := h.closed_iff.mp hb; omega
   refine ⟨by simp [MpscSys.step, hi, Mpsc.sendCS, hc], by simp [MpscSys.step, hi, Mpsc.sendCS, hc],
     by simp [MpscSys.step, hi, Mpsc.sendCS, hc], ?_⟩
   simp only [MpscSys.step, hi, if_true, Mpsc.sendCS, hc, Bool.false_eq_true, if_false]
@@ -212,45 +260,40 @@ theorem C34_mpsc_send_wakes (ops : List MpscOp) (sid v : Nat) :
     have := h.waiting_ok x hwt
     simp [clearWaiting, this]
 
-/-- D39 witness (as-is code): the only sender is dropped, the queue is empty, and `receive` stays `Pending` although
-    the property demands `None` (closed). Replayed on the real code by the chan harness: `m.drops 0`, `m.poll 1`. -/
+/-- C34 mpsc, the drop of the LAST sender handle closes the channel and wakes the registered receiver (in every
+    reachable state); the drop of any other handle only decrements the count. -/
+theorem C34_mpsc_last_drop_wakes (ops : List MpscOp) (sid : Nat) :
+    let s := MpscSys.init.run ops
+    s.senders = [sid] →
+      (s.step (.dropSender sid)).2 = .sender true s.ch.waker ∧
+      (s.step (.dropSender sid)).1.ch.isClosed = true ∧
+      (s.step (.dropSender sid)).1.ch.waker = none ∧
+      (s.step (.dropSender sid)).1.waiting = none := by
+  intro s hl
+  have h : MpscInv s := MpscInv.run _ MpscInv.init ops
+  clear_value s
+  have hi : hasId s.senders sid = true := by rw [hl]; simp [hasId]
+  have hc : s.ch.senderCount = 1 := by rw [h.count, hl]; rfl
+  refine ⟨by simp [MpscSys.step, hi, Mpsc.dropCS, hc], by simp [MpscSys.step, hi, Mpsc.dropCS, hc],
+    by simp [MpscSys.step, hi, Mpsc.dropCS, hc], ?_⟩
+  simp only [MpscSys.step, hi, if_true, Mpsc.dropCS, hc]
+  cases hwt : s.waiting with
+  | none => cases hk : s.ch.waker <;> simp [clearWaiting]
+  | some x =>
+    have := h.waiting_ok x hwt
+    simp [clearWaiting, this]
+
+/-- D39 regression witness (code BEFORE fixes/D39.patch, `runOld`): the only sender is dropped, the queue is empty,
+    and `receive` stays `Pending` although the property demands `None` (closed). Replayed on the unpatched real code by
+    the chan harness: `m.drops 0`, `m.poll 1`. -/
 theorem C34_mpsc_disconnect_counterexample :
-    let s := MpscSys.init.run [.dropSender 0]
+    let s := MpscSys.init.runOld [.dropSender 0]
     (s.ch.pollCS 1).2 = .pending ∧ mpscPollSpec s.ch.data s.senders = .closed := by decide
 
-/-- D39 in universal form: `is_closed` is false after ANY step list, so `receive` never returns `None` and `send`
-    never returns `Closed`. -/
-theorem C34_mpsc_never_closed (ops : List MpscOp) (w : Nat) :
-    let s := MpscSys.init.run ops
-    s.ch.isClosed = false ∧ (s.ch.pollCS w).2 ≠ .closed := by
-  intro s
-  have h : MpscInv s := MpscInv.run _ MpscInv.init ops
-  clear_value s
-  refine ⟨h.never_closed, ?_⟩
-  cases hd : s.ch.data <;> simp [Mpsc.pollCS, hd, h.never_closed]
-
-/-- C34 mpsc, what remains true of "disconnection is reported exactly when all senders are dropped and the queue is
-    empty" (partial; excluded: the single situation senders = [] ∧ queue = [], where the code waits for ever, D39):
-    after ANY step list, whenever a sender handle exists or a value is queued, `receive` answers exactly as specified
-    (oldest value, else `Pending`) — in particular disconnection is never reported early, and values queued before
-    the last sender went away are still delivered in order. -/
-theorem C34_mpsc_poll_spec_partial (ops : List MpscOp) (w : Nat) :
-    let s := MpscSys.init.run ops
-    (s.senders ≠ [] ∨ s.ch.data ≠ []) → (s.ch.pollCS w).2 = mpscPollSpec s.ch.data s.senders := by
-  intro s hne
-  have h : MpscInv s := MpscInv.run _ MpscInv.init ops
-  clear_value s
-  cases hd : s.ch.data with
-  | cons v rest => simp [Mpsc.pollCS, mpscPollSpec, hd]
-  | nil =>
-    have hs : s.senders ≠ [] := by
-      rcases hne with a | a
-      · exact a
-      · exact absurd hd a
-    cases hl : s.senders with
-    | nil => exact absurd hl hs
-    | cons a as => simp [Mpsc.pollCS, mpscPollSpec, h.never_closed, hd]
-
+-- the same steps on the patched code report the disconnection, and a waiting receiver is woken by the last drop
+example : ((MpscSys.init.run [.dropSender 0]).ch.pollCS 1).2 = .closed := by decide
+example : ((MpscSys.init.run [.poll 1, .clone 0 1, .dropSender 0]).step (.dropSender 1)).2 = .sender true (some 1) := by
+  decide
 example : (MpscSys.init.run [.clone 0 1, .send 0 10, .send 1 11, .poll 5, .send 0 12, .poll 5]).got = [10, 11] := by decide
 example : (MpscSys.init.run [.poll 5]).waiting = some 5 := by decide
 example : ((MpscSys.init.run [.poll 5]).step (.send 0 3)).2 = .sender true (some 5) := by decide
